@@ -4,6 +4,7 @@ from hypothesis import strategies as st
 import pyModeS as pms
 from ref import frames
 from vlib import gen
+from vlib import volume
 from vlib.core import Leg, call
 
 PROPERTY = "C10"
@@ -11,7 +12,7 @@ RULE = ("identifications over the Annex 10 six-bit alphabet (A-Z=1..26, space=32
         "with the other 7 random legal (exhaustive 8x37) plus Hypothesis-drawn strings; TC 1-4 x category 0-7 x DF17/18 (callsign, category) and "
         "BDS 2,0 in DF20/21 with random header/address (cs20); oracle: output == input with ' ' -> '_', category == field; independence: "
         "changing one character changes exactly that output position. non-trivial = string with >= 4 distinct symbols or a space/digit"
-        ' Also: the keyword form callsign(msg=...), 98 real identification frames (leg corpus), four concurrent callers decoding different identifications (leg threads).')
+        ' Also: the keyword form callsign(msg=...), 98 real identification frames (leg corpus), four concurrent callers decoding different identifications (leg threads), 300 000 / 2.4 million distinct frames in a row in one process (leg volume).')
 ASSUMPTIONS = ["character codes per Annex 10 Vol IV table 3-9 (ref table below, written from the standard)"]
 
 ALPHA = "ABCDEFGHIJKLMNOPQRSTUVWXYZ 0123456789"
@@ -145,7 +146,23 @@ def chk_threads(case, note):
     return p
 
 
+
+# ---------------------------------------------------------------- volume: one process, very many distinct frames
+def vol_step(a, b, k):
+    cs = "".join(ALPHA[(b >> (6 * i)) % len(ALPHA)] for i in range(8))
+    tc, cat = 1 + (a & 3), (a >> 2) & 7
+    me = (tc << 51) | (cat << 48) | pack(cs)
+    m = "%02X%06X%014X%06X" % ((0x90 if a & 256 else 0x88) | (a >> 5 & 7), (a >> 10) & 0xFFFFFF, me, (a >> 34) & 0xFFFFFF)   # parity is not looked at by callsign()
+    if a & (1 << 62):
+        m = m.lower()
+    r = call(pms.adsb.callsign, m)
+    if r != ("ok", cs.replace(" ", "_")):
+        return "adsb.callsign(%s) -> %r, encoded %r" % (m, r, cs.replace(" ", "_"))
+    return None
+
+
 LEGS = [
+    volume.leg(vol_step, 300000, 2400000, "300 000 (thorough: 2.4 million per process) distinct identification frames through callsign() in one process"),
     Leg("threads", chk_threads, enum=enum_threads, shards_quick=4, shards_thorough=8, doc="concurrent callers with a 1 us switch interval (detection is probabilistic, the verdict on a stateless decoder is not)"),
     Leg("corpus", chk_corpus, enum=enum_corpus, exhaustive=True, doc="98 real identification frames: decoded callsign re-encodes to the transmitted bits"),
     Leg("positions", chk_cs, enum=enum_positions, exhaustive=True, doc="every legal code at every position (8 x 37)"),
